@@ -84,7 +84,7 @@ func (e *Engine) VerifyFunction(fn *ssa.Function) (un *Unit, err error) {
 			}
 			for _, en := range ct.Ensures {
 				g := f.evalClause(en, penv, &r.st, &f.entry)
-				un.obligeNamed(&r.st, fmt.Sprintf("ensures#%d@ret%d", en.Idx, i+1), "postcondition", en.Text+" [return at "+r.pos+"]", en.Pos, g)
+				un.obligeNamed(&r.st, fmt.Sprintf("ensures#%s@ret%d", en.label(), i+1), "postcondition", en.Text+" [return at "+r.pos+"]", en.Pos, g)
 			}
 			if ct.HasMod {
 				f.frameObligations(ct, penv, r, i+1)
